@@ -25,6 +25,16 @@ func errnoName(e syscall.Errno) string {
 }
 
 // begin is the common prologue of every simulated call: scheduling point, then fault plan.
+// POSIX: an empty pathname names nothing (ENOENT) - it is not the working directory.
+func emptyPath(op, p string) error {
+	if p != "" {
+		return nil
+	}
+	Yield(op + " <empty path>")
+	logOp(op, "", "ENOENT", 0, false, false)
+	return perr(op, p, syscall.ENOENT)
+}
+
 func begin(op, abs string) (syscall.Errno, bool) {
 	Yield(op + " " + abs)
 	if name, ok := checkFault(op, abs); ok {
@@ -55,6 +65,9 @@ func Getwd() (string, error) {
 }
 
 func Chdir(p string) error {
+	if err := emptyPath("chdir", p); err != nil {
+		return err
+	}
 	abs := TheFS.Abs(p)
 	if e, f := begin("chdir", abs); f {
 		logOp("chdir", abs, res(e), 0, false, true)
@@ -74,6 +87,9 @@ func Chdir(p string) error {
 }
 
 func stat(op, p string, follow bool) (fs.FileInfo, error) {
+	if err := emptyPath(op, p); err != nil {
+		return nil, err
+	}
 	abs := TheFS.Abs(p)
 	if e, f := begin(op, abs); f {
 		logOp(op, abs, res(e), 0, false, true)
@@ -112,6 +128,9 @@ const (
 )
 
 func OpenFile(p string, flag int, perm fs.FileMode) (*Handle, error) {
+	if err := emptyPath("open", p); err != nil {
+		return nil, err
+	}
 	abs := TheFS.Abs(p)
 	if e, f := begin("open", abs); f {
 		logOp("open", abs, res(e), 0, false, true)
@@ -291,6 +310,9 @@ func WriteFile(p string, data []byte, perm fs.FileMode) error {
 }
 
 func Mkdir(p string, perm fs.FileMode) error {
+	if err := emptyPath("mkdir", p); err != nil {
+		return err
+	}
 	abs := TheFS.Abs(p)
 	if e, f := begin("mkdir", abs); f {
 		logOp("mkdir", abs, res(e), 0, false, true)
@@ -315,6 +337,9 @@ func Mkdir(p string, perm fs.FileMode) error {
 }
 
 func MkdirAll(p string, perm fs.FileMode) error {
+	if err := emptyPath("mkdir", p); err != nil {
+		return err
+	}
 	abs := TheFS.Abs(p)
 	if e, f := begin("mkdirall", abs); f {
 		logOp("mkdirall", abs, res(e), 0, false, true)
@@ -366,6 +391,9 @@ func listDir(n *Node) []fs.DirEntry {
 }
 
 func ReadDir(p string) ([]fs.DirEntry, error) {
+	if err := emptyPath("open", p); err != nil {
+		return nil, err
+	}
 	abs := TheFS.Abs(p)
 	if e, f := begin("readdir", abs); f {
 		logOp("readdir", abs, res(e), 0, false, true)
@@ -384,6 +412,9 @@ func ReadDir(p string) ([]fs.DirEntry, error) {
 }
 
 func Remove(p string) error {
+	if err := emptyPath("remove", p); err != nil {
+		return err
+	}
 	abs := TheFS.Abs(p)
 	if e, f := begin("remove", abs); f {
 		logOp("remove", abs, res(e), 0, false, true)
@@ -526,6 +557,9 @@ func Readlink(p string) (string, error) {
 }
 
 func Chmod(p string, mode fs.FileMode) error {
+	if err := emptyPath("chmod", p); err != nil {
+		return err
+	}
 	abs := TheFS.Abs(p)
 	if e, f := begin("chmod", abs); f {
 		logOp("chmod", abs, res(e), 0, false, true)
@@ -703,6 +737,9 @@ func NewWatcherState() *WatcherState {
 }
 
 func (w *WatcherState) Add(p string) error {
+	if err := emptyPath("watch.add", p); err != nil {
+		return err
+	}
 	abs := TheFS.Abs(p)
 	if e, f := begin("watch.add", abs); f {
 		logOp("watch.add", abs, res(e), 0, false, true)
